@@ -920,6 +920,74 @@ def ob_f128_mul_composed(lemmas):
                       "a, b < M full width; the two 192-bit products arbitrary in range", build, deps=lemmas)
 
 
+def ob_f128_mul_generic(lemmas):
+    """structure-independent twin of c07_f128_mul: whatever sequence of kernel calls mul() makes, each call is replaced by its
+    lemma's exact post-condition and the result must be canonical and congruent to a*b_lo + 2^64*a*b_hi modulo M (the quotient is the
+    solver's: integer division by the constant M). Used when the telescoping obligation does not recognise the call sequence."""
+    NOUT = {"mul_128x64": 3, "mul_reduce": 3, "sub_modulus": 2, "add64_with_carry": 2}
+
+    def build(prog):
+        log = []
+
+        def mk(name):
+            def f(ex, st, args):
+                k = len(log)
+                outs = [X.Sc(S.var(f"g{k}_{name[:5].replace('_', '')}{i}", S.BV(64)), "u64") for i in range(NOUT[name])]
+                log.append((name, list(args), outs, st.pc))
+                ex.abstracted.append(f"{name} (call {k})")
+                return X.Agg(outs, "tuple")
+            return f
+        a, b = _v("a", "u128"), _v("b", "u128")
+        ex, r = run(prog, find(prog, "f128", "Mul", "mul"), [X.elem(a), X.elem(b)], summaries={n: mk(n) for n in NOUT})
+        rt = X.inner(r)
+        wid = [l for l in log if l[0] == "mul_128x64"]
+        if len(wid) != 2:
+            raise NotEncodable(f"f128 mul: expected two widening multiplications, saw {len(wid)}")
+        n2 = lambda v: nat(v[0].t) + nat(v[1].t) * W
+        n3 = lambda v: nat(v[0].t) + nat(v[1].t) * W + nat(v[2].t) * (W * W)
+        Qh, Ql = S.var("Q_a_bhi", S.INT), S.var("Q_a_blo", S.INT)
+        bounds = {"a": (0, M128 - 1), "b": (0, M128 - 1), "Q_a_bhi": (0, (M128 - 1) * (M128 >> 64)), "Q_a_blo": (0, (M128 - 1) * (W - 1))}
+        posts = []
+        first = True
+        for k, (name, args, outs, pc) in enumerate(log):
+            if name == "mul_128x64":
+                posts.append(Eq(n3(outs), Qh if first else Ql))
+                first = False
+            elif name == "mul_reduce":
+                posts.append(And(Eq(n3(outs), n3(args) - nat(args[2].t) * M128), ule(outs[2].t, bvc(64, 1))))
+            elif name == "sub_modulus":
+                v = n2(args)
+                posts.append(Eq(n2(outs), Ite(Le(intc(M128), v), v - M128, v - M128 + W * W)))
+            else:
+                posts.append(Eq(nat(outs[0].t) + nat(outs[1].t) * W, nat(args[0].t) + nat(args[1].t) + nat(args[2].t)))
+        args_ok = And(Eq(wid[0][1][0].t, a.t), Eq(wid[1][1][0].t, a.t), Eq(wid[0][1][1].t, S.extract(b.t, 127, 64)), Eq(wid[1][1][1].t, S.trunc(b.t, 64)))
+        Xv = Ql + Qh * W
+        quot = S.raw("idiv", [Xv - nat(rt), intc(M128)], S.INT)
+        goal = And(args_ok, ult(rt, bvc(128, M128)), Eq(nat(rt) + quot * M128, Xv))
+        qs = [Query("congruent", posts, goal, bounds, encodings=("int",))]
+
+        def relift():
+            # a lemma-level model names the two 192-bit products, not operands. With ONE operand fixed to a concrete boundary value the
+            # products become linear in the other operand (Q_hi = c*b_hi, Q_lo = c*b_lo), so the solver can look for a real (a, b).
+            cands = [M128 - 1, M128 - 2, M128 - 3, (1 << 128) - (1 << 64) - 3, (1 << 127) + 1, (M128 - 1) // 2, (1 << 127) - 1, (1 << 126) + 12345]
+            bh = nat(S.extract(b.t, 127, 64))
+            bl = nat(S.trunc(b.t, 64))
+            out = []
+            for i, c in enumerate(cands):
+                pre = posts + [Eq(nat(a.t), intc(c)), Eq(Qh, intc(c) * bh), Eq(Ql, intc(c) * bl)]
+                out.append(Query(f"congruent_a{i}", pre, goal, bounds, encodings=("int",), timeout=120))
+
+            def lift2(q, env):
+                av, bv = env["a"], env["b"]
+                return _functional_replay("f128 mul", [av, bv], av * bv % M128, M128, f"f128 mul({av}, {bv}) is not a*b mod M", "f128::mul/functional")
+            return Built(out, short_fns(ex), [], lift2, note="operand a fixed to boundary constants: products linear in b")
+        return Built(qs, short_fns(ex) + [f"abstracted: {x}" for x in ex.abstracted], [], None, relift=relift,
+                     note=f"kernel call sequence {[l[0] for l in log]}; quotient by M left to the solver")
+    return Obligation("c07_f128_mul_generic", "C07",
+                      "f128 mul (structure-independent): with every kernel call replaced by its lemma, the result is canonical and congruent to "
+                      "a*b_lo + 2^64*a*b_hi modulo M for all canonical a, b", "a, b < M full width", build, deps=lemmas)
+
+
 # =================================================================================================
 # constants
 def _pow_chain(base, e, M):
@@ -1099,7 +1167,7 @@ def obligations(tier):
     obs += _f128_direct() + [ob_f128_new(), ob_f128_eq()]
     obs += [ob_conv_from(F128, "u8", 8), ob_conv_from(F128, "u16", 16), ob_conv_from(F128, "u32", 32), ob_conv_from(F128, "u64", 64)]
     ker = [ob_f128_kernel("mul_128x64"), ob_f128_kernel("mul_reduce"), ob_f128_kernel("sub_modulus"), ob_f128_kernel("add64_with_carry")]
-    obs += ker + [ob_f128_mul_composed(ker)]
+    obs += ker + [ob_f128_mul_composed(ker), ob_f128_mul_generic(ker)]
     obs += [ob_f128_mul("range"), ob_try_from_int(F128, "u128"), ob_bytes(F128, "slice"), ob_bytes(F128, "random"), ob_constants(F128)]
     if tier == "thorough":
         obs += [ob_f128_mul("value"), ob_f64_roundtrip(), ob_f64_mul_direct(False), ob_f64_mul_direct(True), ob_f64_new(None, True)]
